@@ -357,6 +357,16 @@ class ExprMixin(CallMixin):
             if isinstance(r, PyTuple) and isinstance(l, Const) and isinstance(l.v, tuple):
                 return PyTuple([Const(x) for x in l.v] + r.items)
             return Sym("binop", "+", l, r)
+        if isinstance(op, ast.Mult):
+            # sequence repetition with a constant count
+            for a, b in ((l, r), (r, l)):
+                if isinstance(b, Const) and isinstance(b.v, int) and not isinstance(b.v, bool) and 0 <= b.v <= 64:
+                    if isinstance(a, PyTuple):
+                        return PyTuple(list(a.items) * b.v)
+                    if isinstance(a, PyList) and not a.loop_parts:
+                        n = PyList(list(a.items) * b.v)
+                        n.created_in = self._frame_id()  # type: ignore[attr-defined]
+                        return n
         if isinstance(op, ast.Mod) and (is_strlike(l)):
             return self.percent_format(l, r)
         if isinstance(l, Const) and isinstance(r, Const):
